@@ -1,7 +1,8 @@
 #!/bin/sh
 # Re-run every stored seeded change against the checks recorded in its meta.json; print a table.
 cd "$(dirname "$0")/.." || exit 2
-for d in seeded/*/; do
+# optional argument: a glob selecting the stored changes (default: all of them)
+for d in ${1:-seeded/*/}; do
   id=$(basename $d)
   checks=$(python3 -c "import json;print(' '.join(json.load(open('$d/meta.json'))['caught_by']))")
   res=$(harness/try_seed.sh ${d}patch.diff $checks 2>&1 | grep '^==' | sed -e 's/^== \(C[0-9]*\) rc=1: VIOLATION.*no-failing-input-found.*/\1:BROKEN-ONLY/' -e 's/^== \(C[0-9]*\) rc=1.*/\1:CAUGHT/' -e 's/^== \(C[0-9]*\) rc=0.*/\1:MISSED/' -e 's/^== \(C[0-9]*\) rc=2.*/\1:INFRA/' | tr '\n' ' ')
